@@ -1,11 +1,97 @@
 (* Props/C07.v — expressions over numbers, strings and lists evaluate as Ink
-   specifies.  Only statements, `exact`, Check and Print Assumptions. *)
-From Ink.Data Require Import Types Value Native NativeTie.
-From Ink.Gen Require Import NativeGen CmdGen.
+   specifies.  Only statements, `exact`, Check and Print Assumptions.
 
-(* T-gen ties: the operator name tables read from native_function_call.rs are
-   mutually inverse, and the arities are the ones the model's call_type assumes *)
+   Data/Native.v is the model of NativeFunctionCall::call; Spec/ExprSpec.v and
+   Spec/ListSpec.v say what Ink prescribes.  [abs_res] abstracts an outcome of the
+   model (a Panic has no abstraction, so each equation also says "no panic"). *)
+From Coq Require Import Permutation.
+From Ink.Data Require Import Types InkList IntSem Value Native NativeTie InkListProofs.
+From Ink.Gen Require Import NativeGen CmdGen.
+From Ink.Spec Require Import KeyOrder ListSpec ExprSpec.
+Local Open Scope Z_scope.
+
+(* T-gen ties: the operator name table read from native_function_call.rs is invertible *)
 Theorem nop_names_roundtrip : forall op, nop_of_name (nop_name op) = Some op.
 Proof. exact nop_name_roundtrip. Qed.
 Check nop_names_roundtrip : forall op, nop_of_name (nop_name op) = Some op.
 Print Assumptions nop_names_roundtrip.
+
+(* (1) all 31 operators on bool / int / float / string operands of every type
+   combination, any arity, any iteration order, both build profiles: the model computes
+   the join-type-then-operate semantics of ExprSpec *)
+Theorem native_refines_spec : forall oo ovf fo defs op args, Forall scalar args ->
+  abs_res (call_native_g oo int_sem_now ovf fo defs op (map OVal args)) =
+  Some (spec_scalar_op fo op (map abs_scalar args)).
+Proof. exact native_refines_spec_lemma. Qed.
+Check native_refines_spec : forall oo ovf fo defs op args, Forall scalar args ->
+  abs_res (call_native_g oo int_sem_now ovf fo defs op (map OVal args)) =
+  Some (spec_scalar_op fo op (map abs_scalar args)).
+Print Assumptions native_refines_spec.
+
+(* (2) list (op) list for every binary operator: union, difference, intersection,
+   has / hasn't, == / !=, the four comparisons, && / || — set operations on [abs] *)
+Theorem native_list_binary_refines_spec : forall oo ovf fo defs op a b,
+  ord_ok oo -> wf_list a -> wf_list b -> is_binary op = true ->
+  abs_res (call_native_g oo int_sem_now ovf fo defs op [OVal (VList a); OVal (VList b)]) =
+  Some (spec_list_binary op (abs a) (abs b)).
+Proof. exact native_list_binary_refines_lemma. Qed.
+Check native_list_binary_refines_spec : forall oo ovf fo defs op a b,
+  ord_ok oo -> wf_list a -> wf_list b -> is_binary op = true ->
+  abs_res (call_native_g oo int_sem_now ovf fo defs op [OVal (VList a); OVal (VList b)]) =
+  Some (spec_list_binary op (abs a) (abs b)).
+Print Assumptions native_list_binary_refines_spec.
+
+(* (3) LIST_COUNT, LIST_VALUE, `not`, LIST_ALL, LIST_INVERT ([ds] = the declarations
+   of the list's origins).  LIST_MIN / LIST_MAX as lists, list +- int, LIST_RANGE and
+   list-from-int are covered by the correspondence runs only (partial). *)
+Theorem native_list_unary_refines_spec_partial : forall oo sem ovf fo defs op a ds,
+  ord_ok oo -> wf_list a -> origin_defs defs a = Ok ds -> Forall wf_def ds ->
+  list_unary_covered op = true ->
+  abs_res (call_native_g oo sem ovf fo defs op [OVal (VList a)]) =
+  Some (spec_list_unary ds op (abs a)).
+Proof. exact native_list_unary_refines_lemma. Qed.
+Check native_list_unary_refines_spec_partial : forall oo sem ovf fo defs op a ds,
+  ord_ok oo -> wf_list a -> origin_defs defs a = Ok ds -> Forall wf_def ds ->
+  list_unary_covered op = true ->
+  abs_res (call_native_g oo sem ovf fo defs op [OVal (VList a)]) =
+  Some (spec_list_unary ds op (abs a)).
+Print Assumptions native_list_unary_refines_spec_partial.
+
+(* (4) "independent of the order items were added" *)
+Theorem list_ops_insertion_order_free : forall l l',
+  wf_list l -> Permutation (l_items l) (l_items l') -> abs l = abs l'.
+Proof. exact list_ops_insertion_order_free_lemma. Qed.
+Check list_ops_insertion_order_free : forall l l',
+  wf_list l -> Permutation (l_items l) (l_items l') -> abs l = abs l'.
+Print Assumptions list_ops_insertion_order_free.
+
+Theorem list_binary_results_order_free : forall oo1 oo2 ovf fo defs op a a' b b',
+  ord_ok oo1 -> ord_ok oo2 -> wf_list a -> wf_list b -> is_binary op = true ->
+  Permutation (l_items a) (l_items a') -> Permutation (l_items b) (l_items b') ->
+  abs_res (call_native_g oo1 int_sem_now ovf fo defs op [OVal (VList a); OVal (VList b)]) =
+  abs_res (call_native_g oo2 int_sem_now ovf fo defs op [OVal (VList a'); OVal (VList b')]).
+Proof. exact native_list_binary_order_free. Qed.
+Check list_binary_results_order_free : forall oo1 oo2 ovf fo defs op a a' b b',
+  ord_ok oo1 -> ord_ok oo2 -> wf_list a -> wf_list b -> is_binary op = true ->
+  Permutation (l_items a) (l_items a') -> Permutation (l_items b) (l_items b') ->
+  abs_res (call_native_g oo1 int_sem_now ovf fo defs op [OVal (VList a); OVal (VList b)]) =
+  abs_res (call_native_g oo2 int_sem_now ovf fo defs op [OVal (VList a'); OVal (VList b')]).
+Print Assumptions list_binary_results_order_free.
+
+(* (5) the extreme VALUE of a list never depends on the iteration order; the extreme
+   ITEM does when two items tie (defect D18: LIST_MAX(a + x) with L.a = M.x = 1) *)
+Theorem list_max_value_order_independent : forall oo1 oo2 l l',
+  ord_ok oo1 -> ord_ok oo2 -> Permutation (l_items l) (l_items l') ->
+  max_value oo1 l = max_value oo2 l'.
+Proof. exact max_value_order_independent. Qed.
+Check list_max_value_order_independent : forall oo1 oo2 l l',
+  ord_ok oo1 -> ord_ok oo2 -> Permutation (l_items l) (l_items l') ->
+  max_value oo1 l = max_value oo2 l'.
+Print Assumptions list_max_value_order_independent.
+
+Theorem list_max_item_order_refuted :
+  exists oo1 oo2 l, ord_ok oo1 /\ ord_ok oo2 /\ get_max_item oo1 l <> get_max_item oo2 l.
+Proof. exact get_max_item_order_refuted. Qed.
+Check list_max_item_order_refuted :
+  exists oo1 oo2 l, ord_ok oo1 /\ ord_ok oo2 /\ get_max_item oo1 l <> get_max_item oo2 l.
+Print Assumptions list_max_item_order_refuted.
